@@ -25,8 +25,13 @@ func etEncode(t time.Time) ([]byte, string) {
 	if err != nil {
 		return nil, "err"
 	}
+	if et.Time != t { // same wall/ext words and the same *Location: encoding must only read the caller's value
+		etMutated++
+	}
 	return b, hx(b)
 }
+
+var etMutated int
 
 var etFill int
 
@@ -112,6 +117,29 @@ func C19(c *core.Ctx) {
 		}
 	}
 	c.Hist("order pairs")
+	if etMutated > 0 {
+		c.Violation("judge-go", "c19-receiver-written", fmt.Sprintf("MarshalBinaryTo changed the EventTime it encodes in %d calls (a value shared by goroutines that only encode it is written)", etMutated), nil)
+	}
+	// layouts of other binary time encodings (time.Time.MarshalBinary: 15 or 16 bytes) are not EventTime payloads
+	for i := 0; i < 40; i++ {
+		tb, _ := time.Unix(int64(r.Uint32()), int64(r.Intn(1000000000))).In(locs[i%len(locs)]).MarshalBinary()
+		variants := [][]byte{tb, append(append([]byte{}, tb...), 0), append([]byte{2}, tb[1:]...)}
+		for _, b := range variants {
+			_, obs := etDecode(b)
+			c.Eval()
+			c.Corr("c19-decode", "dec_eventtime", []string{hx(b)}, obs)
+			if obs != "err" {
+				c.Violation("judge-go", "c19-length", fmt.Sprintf("a %d-byte payload (time.Time's own binary layout) was accepted: %s", len(b), obs), map[string]string{"payload": hx(b)})
+			}
+			// the same bytes as an ext8 type-0 timestamp inside an entry
+			ent := append(append([]byte{0x92, 0xc7, byte(len(b)), 0x00}, b...), 0x80)
+			var e protocol.EntryExt
+			if _, err := e.UnmarshalMsg(ent); err == nil {
+				c.Violation("judge-go", "c19-length", fmt.Sprintf("an entry whose EventTime payload has %d bytes was accepted", len(b)), map[string]string{"entry": hx(ent)})
+			}
+		}
+		c.Hist("foreign binary time layouts rejected")
+	}
 	// lengths other than 8 are rejected; any 8 bytes are accepted; re-encoding reproduces
 	// payloads with a nanosecond field below 10^9
 	for i := 0; i < c.N(2000, 300000); i++ {
